@@ -165,6 +165,7 @@ def run(desc, ctx):
         return
     worst = (0.0, 0.0)
     first = None
+    known_before = sum(1 for v in ctx.violations if v['mech'] == 'lh:sparse-room:mirror-solution-or-unconverged')
     for j in range(desc['rooms']):
         rseed = desc['seed'] * 1000 + j
         mode = ('full', 'partial', 'full', 'partial', 'unlinkable')[j % 5]
@@ -178,5 +179,10 @@ def run(desc, ctx):
             worst = (max(worst[0], r[0]), max(worst[1], r[1]))
             first = first or {'room_seed': rseed, 'mode': mode, 'n_bs': r[2], 'n_samples': r[3],
                               'translation_error_m': r[0], 'rotation_error_rad': r[1]}
+    # the known poor-initial-estimate finding occurs in about 1 of 3000 rooms; three or more in one batch of 16 rooms is
+    # not that finding any more
+    nk = getattr(ctx, '_per_mech', {}).get('lh:sparse-room:mirror-solution-or-unconverged', 0) - known_before
+    if nk >= 3:
+        ctx.violate('lh:initial-estimate-failures-far-above-the-known-rate', {'failures_in_batch_of_16_rooms': nk, 'batch_seed': desc['seed']})
     ctx.sample({'first_room': first, 'worst_translation_error_m_in_batch': worst[0],
                 'worst_rotation_error_rad_in_batch': worst[1]})
